@@ -447,7 +447,7 @@ mutual
         (match ext with
          | none => true
          | some e => e.fvName.length == 16 && ehoOf blocks ext < 65536 && 20 + e.data.length < 4294967296 &&
-                     ehoOf blocks ext + 20 < length) &&
+                     ehoOf blocks ext + 20 ≤ length) &&
         length % 8 == 0 && length < 0x4000000000000000 && 64 ≤ length &&
         wfFiles pre length files &&
         -- (no condition on what follows the last file: since fixes 8039e86 / F52 the reader takes an erased
